@@ -636,7 +636,7 @@ def run_layout_part(ctx, runner):
             if f.endswith(".lay"):
                 cases.append(("corpus:corpus/C10/" + f, open(os.path.join(d, f)).read()))
         cases += exhaustive_cases(ctx.thorough)
-        n = 6000 if ctx.thorough else 350
+        n = 40000 if ctx.thorough else 2000
         for i in range(n):
             cases.append(("random:%d" % i, gen_case(rng, ctx.thorough, avoid_allzero)))
     with cf.ThreadPoolExecutor(max(2, vlib.NPROC - 2)) as ex:
@@ -747,7 +747,7 @@ def run_world_part(ctx):
         return 0, 0
     for f in wc.corpus_files(["C01", "C02", "C03", "C05", "C09", "C10", "C12", "C13"]):
         files.append(("corpus:" + os.path.relpath(f, vlib.VERIF), open(f).read()))
-    n = 4000 if ctx.thorough else 280
+    n = 20000 if ctx.thorough else 1200
     cfgs = world_cfgs()
     per_cfg = {}
     for i in range(n if cfgs else 0):
